@@ -64,7 +64,7 @@ Inductive serr :=
 | SRemoteClosing
 | SConn (code : N)              (* StreamError::ConnectionError(Local Application code) *)
 | SOtherVariant.
-Inductive api := AResolve | ARecv | ASendResp | ASendData | AFinish | ASendReq | ARecvResp.
+Inductive api := AResolve | ARecv | ASendResp | ASendData | AFinish | ASendReq | ARecvResp | ARecvTrl | ASendTrl.
 Inductive result := ROk | RErr (a : api) (e : serr) | RPanic (site : N) | RUnmodelled.
 
 (* CloseStream::handle_connection_error_on_stream *)
@@ -178,7 +178,8 @@ Definition poll_data (s : fstream) : pd * fstream :=
   end.
 
 (* ------------------------------------------------------------------ RequestStream::poll_recv_data *)
-Inductive rd := RdPending | RdSome (d : bytes) | RdNone | RdErr (e : serr) | RdPanic (site : N) | RdUnmodelled.
+(* RdTrailers k: `None`, the HEADERS frame that ended the body is kept in RequestStream.trailers *)
+Inductive rd := RdPending | RdSome (d : bytes) | RdNone | RdTrailers (k : hkind) | RdErr (e : serr) | RdPanic (site : N) | RdUnmodelled.
 
 (* HandleFrameStreamErrorOnRequestStream: Quic(StreamTerminated) and UnexpectedEnd *)
 Definition fse_quic (c : N) (sh : shared) : shared * serr :=
@@ -196,7 +197,7 @@ Fixpoint recv_data_loop (fuel : nat) (sh : shared) (s : fstream) : rd * shared *
         | (PnErrQuic c, s1) => let '(sh', e) := fse_quic c sh in (RdErr e, sh', s1)
         | (PnUnexpectedEnd, s1) => let '(sh', e) := fse_end sh in (RdErr e, sh', s1)
         | (PnEnd, s1) => (RdNone, sh, s1)
-        | (PnHeaders _, s1) => (RdNone, sh, s1)                 (* trailers kept for recv_trailers *)
+        | (PnHeaders k, s1) => (RdTrailers k, sh, s1)           (* self.trailers = Some(encoded) *)
         | (PnData _, s1) => recv_data_loop f sh s1
         | (PnUnmodelled, s1) => (RdUnmodelled, sh, s1)
         | (PnPanic n, s1) => (RdPanic n, sh, s1)
@@ -216,8 +217,8 @@ Definition poll_recv_data (sh : shared) (s : fstream) : rd * shared * fstream :=
 
 (* ------------------------------------------------------------------ one request task *)
 Inductive pc :=
-| SWait | SResolve | SRecv | SSendResp | SSendData | SFinish
-| CSendReq | CSendData | CFinish | CRecvResp | CRecv
+| SWait | SResolve | SRecv | SRecvTrl | SSendResp | SSendData | SSendTrl | SFinish
+| CSendReq | CSendData | CSendTrl | CFinish | CRecvResp | CRecv | CRecvTrl
 | Done.
 
 Record req := {
@@ -227,6 +228,8 @@ Record req := {
   pcr : pc;
   stopped : option N;       (* peer's STOP_SENDING for our sending half *)
   acc : bytes;              (* body bytes handed to the application, in order *)
+  trl : option hkind;       (* RequestStream.trailers: a trailer frame taken off the stream, not yet decoded *)
+  gottrl : bool;            (* recv_trailers handed a trailer section to the application *)
   tx : list witem;          (* frames written *)
   calls : list call;        (* reset / stop_sending / finish on this stream *)
   res : option result
@@ -235,11 +238,14 @@ Record req := {
 Definition init_req (c : rcfg) (script : list ev) : req :=
   {| cfg := c; todo := script; fs := fs0;
      pcr := match c_role c with Server => SWait | Client => CSendReq end;
-     stopped := None; acc := []; tx := []; calls := []; res := None |}.
+     stopped := None; acc := []; trl := None; gottrl := false; tx := []; calls := []; res := None |}.
 
 Definition upd (r : req) (f : fstream) (p : pc) (a : bytes) (t : list witem) (cs : list call) (rs : option result) : req :=
   {| cfg := cfg r; todo := todo r; fs := f; pcr := p; stopped := stopped r;
-     acc := a; tx := t; calls := cs; res := rs |}.
+     acc := a; trl := trl r; gottrl := gottrl r; tx := t; calls := cs; res := rs |}.
+Definition set_trl (r : req) (o : option hkind) (g : bool) : req :=
+  {| cfg := cfg r; todo := todo r; fs := fs r; pcr := pcr r; stopped := stopped r;
+     acc := acc r; trl := o; gottrl := g; tx := tx r; calls := calls r; res := res r |}.
 Definition finish_with (r : req) (f : fstream) (rs : result) (t : list witem) (cs : list call) : req :=
   upd r f Done (acc r) t cs (Some rs).
 Definition goto (r : req) (f : fstream) (p : pc) : req := upd r f p (acc r) (tx r) (calls r) None.
@@ -255,6 +261,60 @@ Definition write_err (r : req) (sh : shared) : option (shared * serr) :=
 
 Definition opt_call (mk : N -> call) (c : option N) : list call :=
   match c with Some x => [mk x] | None => [] end.
+
+(* ------------------------------------------------------------------ RequestStream::poll_recv_trailers *)
+Inductive tr_res :=
+| TrPending (kept : option hkind)     (* Pending; self.trailers as left behind *)
+| TrDone (got : bool)                 (* Ok(Some(map)) / Ok(None) *)
+| TrErr (e : serr) (cs : list call)   (* error, with the stop_sending calls made on the way *)
+| TrPanic (site : N) | TrUnmodelled.
+
+(* the last part: decode_stateless + Header::try_from on the trailer section; the client wrapper
+   (client/stream.rs poll_recv_trailers) cancels on HeaderTooBig *)
+Definition trailers_decode (p : pc) (k : hkind) (sh : shared) (f : fstream) : tr_res * shared * fstream :=
+  match k with
+  | HOk => (TrDone true, sh, f)
+  | HOversized =>
+      let '(sh', e) := if trl_toobig_stores then conn_error_on_stream H3_INTERNAL_ERROR sh
+                       else (sh, serr_of_variant trl_toobig_variant 0) in
+      (TrErr e (match p with CRecvTrl => opt_call CStop cli_trl_toobig_stop | _ => [] end), sh', f)
+  | HBadQpack => let '(sh', e) := conn_error_on_stream trl_qpack_code sh in (TrErr e [], sh', f)
+  | HMalformed =>
+      let '(sh', e) := if trl_malformed_stores then conn_error_on_stream trl_malformed_code sh
+                       else (sh, serr_of_variant trl_malformed_variant trl_malformed_code) in
+      (TrErr e (opt_call CStop trl_malformed_stop), sh', f)
+  end.
+
+(* after the trailer frame: no known frame may follow; the section is looked at once the stream has ended *)
+Definition trailers_tail (p : pc) (k : hkind) (sh : shared) (f : fstream) : tr_res * shared * fstream :=
+  if trl_waits_for_end && negb (eos f && match buf f with [] => true | _ => false end) then
+    match poll_next f with
+    | (PnPending, f1) => (TrPending (Some k), sh, f1)
+    | (PnErrQuic c, f1) => let '(sh', e) := fse_quic c sh in (TrErr e [], sh', f1)
+    | (PnUnexpectedEnd, f1) => let '(sh', e) := fse_end sh in (TrErr e [], sh', f1)
+    | (PnEnd, f1) => trailers_decode p k sh f1
+    | (PnHeaders _, f1) | (PnData _, f1) =>
+        let '(sh', e) := conn_error_on_stream trl_unexpected_code sh in (TrErr e [], sh', f1)
+    | (PnUnmodelled, f1) => (TrUnmodelled, sh, f1)
+    | (PnPanic n, f1) => (TrPanic n, sh, f1)
+    end
+  else trailers_decode p k sh f.
+
+Definition recv_trailers (sh : shared) (p : pc) (kept : option hkind) (f : fstream) : tr_res * shared * fstream :=
+  match kept with
+  | Some k => trailers_tail p k sh f
+  | None =>
+      match poll_next f with
+      | (PnPending, f1) => (TrPending None, sh, f1)
+      | (PnErrQuic c, f1) => let '(sh', e) := fse_quic c sh in (TrErr e [], sh', f1)
+      | (PnUnexpectedEnd, f1) => let '(sh', e) := fse_end sh in (TrErr e [], sh', f1)
+      | (PnEnd, f1) => (TrDone false, sh, f1)
+      | (PnHeaders k, f1) => trailers_tail p k sh f1
+      | (PnData _, f1) => let '(sh', e) := conn_error_on_stream trl_unexpected_code sh in (TrErr e [], sh', f1)
+      | (PnUnmodelled, f1) => (TrUnmodelled, sh, f1)
+      | (PnPanic n, f1) => (TrPanic n, sh, f1)
+      end
+  end.
 
 Definition exec_pc (sh : shared) (r : req) : shared * req * status :=
   match pcr r with
@@ -307,11 +367,9 @@ Definition exec_pc (sh : shared) (r : req) : shared * req * status :=
       match poll_recv_data sh (fs r) with
       | (RdPending, sh', f) => (sh', goto r f (pcr r), Stop)
       | (RdSome d, sh', f) => (sh', upd r f (pcr r) (acc r ++ d) (tx r) (calls r) None, Continue)
-      | (RdNone, sh', f) =>
-          match pcr r with
-          | SRecv => (sh', goto r f SSendResp, Stop)                      (* yield before answering *)
-          | _ => (sh', finish_with r f ROk (tx r) (calls r), Stop)
-          end
+      | (RdNone, sh', f) => (sh', goto r f (match pcr r with SRecv => SRecvTrl | _ => CRecvTrl end), Continue)
+      | (RdTrailers k, sh', f) =>
+          (sh', set_trl (goto r f (match pcr r with SRecv => SRecvTrl | _ => CRecvTrl end)) (Some k) (gottrl r), Continue)
       | (RdErr e, sh', f) => (sh', finish_with r f (RErr ARecv e) (tx r) (calls r), Stop)
       | (RdPanic n, sh', f) => (sh', finish_with r f (RPanic n) (tx r) (calls r), Stop)
       | (RdUnmodelled, sh', f) => (sh', finish_with r f RUnmodelled (tx r) (calls r), Stop)
@@ -330,8 +388,37 @@ Definition exec_pc (sh : shared) (r : req) : shared * req * status :=
           else let '(sh2, e2) := conn_error_on_stream H3_INTERNAL_ERROR sh in
                (sh2, finish_with r (fs r) (RErr ASendData e2) (tx r) (calls r), Stop)
       | None =>
-          (sh, upd r (fs r) (match pcr r with SSendData => SFinish | _ => CFinish end)
+          (sh, upd r (fs r) (match pcr r, c_trl (cfg r) with
+                             | SSendData, Some _ => SSendTrl | SSendData, None => SFinish
+                             | _, Some _ => CSendTrl | _, None => CFinish
+                             end)
                    (acc r) (tx r ++ [WData (c_body (cfg r))]) (calls r) None, Stop)
+      end
+  (* ---- both roles: send_trailers (size check against the peer's limit, then the write) *)
+  | SSendTrl | CSendTrl =>
+      if send_trailers_limit_cmp && over (match c_trl (cfg r) with Some z => z | None => 0 end) (peer_max sh)
+      then (sh, finish_with r (fs r) (RErr ASendTrl SHeaderTooBig) (tx r) (calls r), Stop)
+      else match write_err r sh with
+           | Some (sh', e) =>
+               if send_trailers_err_via_hq then (sh', finish_with r (fs r) (RErr ASendTrl e) (tx r) (calls r), Stop)
+               else let '(sh2, e2) := conn_error_on_stream H3_INTERNAL_ERROR sh in
+                    (sh2, finish_with r (fs r) (RErr ASendTrl e2) (tx r) (calls r), Stop)
+           | None =>
+               (sh, upd r (fs r) (match pcr r with SSendTrl => SFinish | _ => CFinish end)
+                        (acc r) (tx r ++ [WTrailers]) (calls r) None, Stop)
+           end
+  (* ---- both roles: recv_trailers *)
+  | SRecvTrl | CRecvTrl =>
+      match recv_trailers sh (pcr r) (trl r) (fs r) with
+      | (TrPending o, sh', f) => (sh', set_trl (goto r f (pcr r)) o (gottrl r), Stop)
+      | (TrDone got, sh', f) =>
+          match pcr r with
+          | SRecvTrl => (sh', set_trl (goto r f SSendResp) None got, Stop)       (* yield before answering *)
+          | _ => (sh', set_trl (finish_with r f ROk (tx r) (calls r)) None got, Stop)
+          end
+      | (TrErr e cs, sh', f) => (sh', finish_with r f (RErr ARecvTrl e) (tx r) (calls r ++ cs), Stop)
+      | (TrPanic n, sh', f) => (sh', finish_with r f (RPanic n) (tx r) (calls r), Stop)
+      | (TrUnmodelled, sh', f) => (sh', finish_with r f RUnmodelled (tx r) (calls r), Stop)
       end
   | SFinish => (sh, finish_with r (fs r) ROk (tx r) (calls r ++ [CFin]), Stop)   (* SimQuic poll_finish cannot fail here *)
   (* ---- client: send_request, send_data, finish, recv_response *)
@@ -381,7 +468,7 @@ Fixpoint poll_task (fuel : nat) (sh : shared) (r : req) : shared * req :=
       | (sh', r', Continue) => poll_task f sh' r'
       end
   end.
-Definition task_fuel (r : req) : nat := length (buf (fs r)) + length (rx (fs r)) + 6.
+Definition task_fuel (r : req) : nat := length (buf (fs r)) + length (rx (fs r)) + 8.
 
 (* ------------------------------------------------------------------ the world *)
 Record world := { sh : shared; reqs : list req }.
@@ -411,14 +498,14 @@ Definition push_rx (e : ev) (f : fstream) : fstream :=
 
 Definition with_fs (r : req) (f : fstream) (t : list ev) : req :=
   {| cfg := cfg r; todo := t; fs := f; pcr := pcr r; stopped := stopped r;
-     acc := acc r; tx := tx r; calls := calls r; res := res r |}.
+     acc := acc r; trl := trl r; gottrl := gottrl r; tx := tx r; calls := calls r; res := res r |}.
 Definition with_stop (r : req) (c : N) : req :=
   {| cfg := cfg r; todo := todo r; fs := fs r; pcr := pcr r;
      stopped := match stopped r with Some c0 => Some c0 | None => Some c end;
-     acc := acc r; tx := tx r; calls := calls r; res := res r |}.
+     acc := acc r; trl := trl r; gottrl := gottrl r; tx := tx r; calls := calls r; res := res r |}.
 Definition with_pc (r : req) (p : pc) : req :=
   {| cfg := cfg r; todo := todo r; fs := fs r; pcr := p; stopped := stopped r;
-     acc := acc r; tx := tx r; calls := calls r; res := res r |}.
+     acc := acc r; trl := trl r; gottrl := gottrl r; tx := tx r; calls := calls r; res := res r |}.
 
 (* the part of an action that concerns request r itself, given the shared state it sees *)
 Definition req_step (a : action) (s : shared) (r : req) : shared * req :=
@@ -500,7 +587,7 @@ Definition outcome_of (r : option result) : outcome :=
   | Some _ => OOther
   end.
 Definition observe (r : req) : observed :=
-  {| ob_out := outcome_of (res r); ob_data := acc r; ob_calls := calls r; ob_tx := tx r |}.
+  {| ob_out := outcome_of (res r); ob_data := acc r; ob_trl := gottrl r; ob_calls := calls r; ob_tx := tx r |}.
 Definition observe_conn (s : shared) : connobs :=
   {| co_cell := cell s; co_closes := closes s; co_driver := drv s |}.
 
